@@ -94,6 +94,15 @@ type Maps struct {
 	SBin map[string][]byte
 }
 
+// Bag holds untyped containers. It is part of the type/name maps (so that list type names map to
+// []interface{} and map[string]interface{}), and is used by hand-built peer streams; the value
+// generator does not draw it.
+type Bag struct {
+	Items []interface{}
+	Other []int32
+	M     map[string]interface{}
+}
+
 // Twenty-four small distinct classes, so that a stream can hold class indices >= 16.
 type K00 struct {
 	A int32
@@ -198,6 +207,7 @@ func witness() interface{} {
 		L  *Lists
 		M  *Maps
 		W  *Wide
+		Bg *Bag
 		// struct types must be reachable through typed fields (an interface{} element hides them
 		// from the extraction)
 		K00 *K00
@@ -240,7 +250,8 @@ func witness() interface{} {
 		M: &Maps{SS: map[string]string{"a": "b"}, SI: map[string]int32{"a": 1}, SL: map[string]int64{"a": 1}, SF: map[string]float64{"a": 1.5},
 			SB: map[string]bool{"a": true}, SP: map[string]*K02{"a": {1, "x"}}, IS: map[int32]string{1: "a"}, LS: map[int64]string{1: "a"},
 			SBin: map[string][]byte{"a": {1}}},
-		W: &Wide{S0: "a", S1: "b", N0: n, K: &K05{true, "k"}, M: map[string]int32{"a": 1}, Z: []string{"z"}},
+		W:  &Wide{S0: "a", S1: "b", N0: n, K: &K05{true, "k"}, M: map[string]int32{"a": 1}, Z: []string{"z"}},
+		Bg: &Bag{Items: []interface{}{int32(1)}, Other: []int32{1}, M: map[string]interface{}{"a": int32(1)}},
 	}
 	fillWitness(reflect.ValueOf(w).Elem())
 	return w
